@@ -39,17 +39,25 @@ Theorem C20_underscores :
 Proof. exact underscores_laws. Qed.
 Print Assumptions C20_underscores.
 
-(* html cleaner on the element-tree model: exactly the non-blank text nodes
-   whose parent is not hidden, in document order, and no tag characters *)
-Theorem C20_html_visible : forall ws hidden n,
-  visible ws hidden n = map snd (filter (keep ws hidden) (node_texts n)).
+(* html cleaner on the element-tree model: exactly the non-blank text nodes whose parent is not
+   style/link/head/script and that have no <head> ancestor (as repaired: the <title> is not visible
+   text), in document order, and no tag characters *)
+Theorem C20_html_visible : forall ws hidden is_head n,
+  visible ws hidden is_head n = map snd (filter (keep ws hidden is_head) (node_texts n)).
 Proof. exact visible_spec. Qed.
 Print Assumptions C20_html_visible.
 
-Theorem C20_html_no_tags : forall ws hidden tagchar n,
+(* nothing nested at any depth inside a head element is returned *)
+Theorem C20_html_nothing_from_head : forall ws hidden is_head n pt,
+  In pt (node_texts n) -> existsb is_head (fst pt) = true -> (forall t, is_head t = true -> hidden t = true) ->
+  keep ws hidden is_head pt = false.
+Proof. exact visible_not_under_head. Qed.
+Print Assumptions C20_html_nothing_from_head.
+
+Theorem C20_html_no_tags : forall ws hidden is_head tagchar n,
   tagchar 32%N = false ->
   Forall (fun pt => forallb (fun c => negb (tagchar c)) (snd pt) = true) (node_texts n) ->
-  forallb (fun c => negb (tagchar c)) (html_clean ws hidden n) = true.
+  forallb (fun c => negb (tagchar c)) (html_clean ws hidden is_head n) = true.
 Proof. exact html_no_tags. Qed.
 Print Assumptions C20_html_no_tags.
 
